@@ -61,6 +61,34 @@ PROPERTIES = {
         "excluded": ["summary()/build() text output and is_subgraph/is_isomorphic: bounded stand-in only (string building outside the subset)"],
         "trusted": ["space_unique_key = SKey (L10)", "networkx"],
     },
+    "C03": {
+        "decided_by": "none-spurious / none-duplicated from the invariant (I-norm, I-key) of the verified expansion core; none-missing for BFS "
+                      "from expand_bfs's postcondition (True => every reachable node expanded) and node_is_minimal = expanded leaf; "
+                      "block / SCC / minimal-space / attractor-seed strategies and the skip paths: bounded stand-in only",
+        "excluded": [],
+        "trusted": ["L3/L12 (Lean): leaves of the full diagram are the minimal trap spaces", "L13 (cited): block / source-SCC independence"],
+    },
+    "C01": {"decided_by": "contracts for the attractor layer are not yet discharged; this property is currently decided by the bounded stand-in "
+                          "(brute-force attractors vs seeds for all complete strategies)", "excluded": [], "trusted": ["L7, L13 (cited)"]},
+    "C05": {"decided_by": "bounded stand-in (skip-node histories on motif-avoidant networks vs brute-force attractors); the per-node skip-exclusion "
+                          "obligation is known to fail (D12, known finding)", "excluded": [], "trusted": []},
+    "C06": {"decided_by": "bounded stand-in (every reported intervention simulated on the overridden network)", "excluded": [], "trusted": ["L11 (Lean): LDOI theorem"]},
+    "C07": {"decided_by": "_ensure_edge (every stable motif of an edge is recorded exactly once, in order) is proved; find_drivers / "
+                          "successions_to_target: bounded stand-in against brute-force minimal driver sets and path enumeration",
+            "excluded": ["completeness with skip_feedforward_successions=True (order dependent)"], "trusted": []},
+    "C08": {"decided_by": "bounded stand-in over all four option combinations and small / zero configuration values", "excluded": [], "trusted": ["L7 (cited)"]},
+    "C09": {"decided_by": "bounded stand-in: solver output vs brute-force trap spaces / fixed points / reduced-STG deadlocks for all problem kinds, "
+                          "time directions, ensure / avoid subspaces, source lists and limits", "excluded": [], "trusted": ["clingo enumeration modes", "L4, L9 (Lean)"]},
+    "C12": {"decided_by": "bounded stand-in (attractor sets vs brute-force terminal SCCs; fallback vs default)", "excluded": [], "trusted": []},
+    "C13": {"decided_by": "percolate_space_strict is within the subset (its loops are cut at invariants; variants not yet stated); all other "
+                          "termination claims: bounded stand-in with a per-case wall-clock limit", "excluded": [], "trusted": ["every external call terminates"]},
+    "C17": {"decided_by": "bounded stand-in (metamorphic: rename / reorder / re-encode / negate, sanitisation clashes)", "excluded": ["equality of the three AEON parsers"],
+            "trusted": ["L-equivariance (not mechanised)"]},
+    "C18": {"decided_by": "bounded stand-in (disjoint unions, input valuations, published models <= 12 variables vs AEON attractors)",
+            "excluded": ["agreement with an independent computation on large models is empirical by nature"], "trusted": ["L14 (Lean): products"]},
+    "C19": {"decided_by": "order-independence: every verified loop over a set / dict is proved for an arbitrary iteration order (percolate_space_strict, "
+                          "restrict_petrinet_to_subspace) and its postcondition determines the result uniquely; whole-diagram reproducibility across "
+                          "hash seeds: bounded stand-in", "excluded": [], "trusted": ["AEON / clingo / networkx deterministic"]},
 }
 
 # Properties not (yet) claimed, with the reason recorded in MANIFEST.json.
